@@ -142,11 +142,11 @@ pub fn run_inv(env: &Env, inv: &Inv) -> io::Result<Outcome> {
     fs::write(&stdin_p, inv.stdin.as_ref().map(|b| b.0.as_slice()).unwrap_or(&[]))?;
     let _ = fs::remove_file(&trace_p);
     let root_s = root.to_string_lossy().to_string();
-    let cwd: PathBuf = if inv.cwd == "." { root.clone() } else { root.join(&inv.cwd) };
+    let cwd: PathBuf = if inv.cwd == "." { root.clone() } else { root.join(crate::util::os(&inv.cwd)) };
     let plan: Vec<String> = inv.plan.iter().map(|r| r.render()).collect();
 
     let mut cmd = Command::new(&env.bin);
-    cmd.args(inv.argv(&root_s))
+    cmd.args(inv.argv(&root_s).iter().map(|a| crate::util::os(a)))
         .current_dir(&cwd)
         .env_clear()
         .env("LD_PRELOAD", &env.shim)
@@ -154,7 +154,8 @@ pub fn run_inv(env: &Env, inv: &Inv) -> io::Result<Outcome> {
         .env("VSIM_TRACE", &trace_p)
         .env("VSIM_SEED", inv.shim_seed.to_string())
         .env("VSIM_READDIR", &inv.readdir)
-        .env("VSIM_PLAN", plan.join(";"))
+        .env("VSIM_PLAN", crate::util::os(&plan.join(";")))
+        .envs(inv.env.iter().map(|(k, v)| (k.as_str(), v.as_str())))
         .env("RUST_BACKTRACE", "0")
         .stdin(Stdio::from(File::open(&stdin_p)?))
         .stdout(Stdio::from(File::create(&stdout_p)?))
@@ -168,7 +169,7 @@ pub fn run_inv(env: &Env, inv: &Inv) -> io::Result<Outcome> {
         libc::prlimit(child.id() as libc::pid_t, libc::RLIMIT_CPU, &lim, std::ptr::null_mut());
     }
     let status = child.wait()?;
-    let trace_raw = fs::read_to_string(&trace_p).unwrap_or_default();
+    let trace_raw = crate::util::path_decode(&fs::read(&trace_p).unwrap_or_default());
     Ok(Outcome {
         exit: status.code(),
         signal: status.signal(),
